@@ -112,6 +112,8 @@ type Machine struct {
 	allocOn      bool
 	maxSteps     int64
 	syncDepth    int
+	pools        map[string][]value // sync.Pool contents and sync.Once flags, by address
+	syncMaps     map[string]*Map
 	threads      []*ithread
 	curThread    *ithread
 	mainResume   chan struct{}
